@@ -1,4 +1,5 @@
 import GoLevel.Proofs.DurableStepR3
+import GoLevel.Proofs.DurableStepTr
 /-!
 The invariant holds initially and is preserved by every fault-free step: it holds in every reachable state.
 -/
@@ -55,11 +56,26 @@ theorem inv_step {cfg : Cfg} (hg : cfg.Good) {s : St} {d : Disk} (h : Inv cfg s 
     simp only [step, Option.map_eq_some_iff, Prod.mk.injEq] at hs
     obtain ⟨s1, hs1, rfl, rfl⟩ := hs
     exact inv_recStep h hs1
-  | compactStart _ => cases hff
-  | trBegin => cases hff
-  | trPut _ => cases hff
-  | trCommit => cases hff
-  | trDiscard => cases hff
+  | compactStart inputs =>
+    simp only [step, Option.map_eq_some_iff, Prod.mk.injEq] at hs
+    obtain ⟨s1, hs1, rfl, rfl⟩ := hs
+    exact inv_compactStart h hs1
+  | trBegin =>
+    simp only [step, Option.map_eq_some_iff, Prod.mk.injEq] at hs
+    obtain ⟨s1, hs1, rfl, rfl⟩ := hs
+    exact inv_stepTr h hs1
+  | trPut _ =>
+    simp only [step, Option.map_eq_some_iff, Prod.mk.injEq] at hs
+    obtain ⟨s1, hs1, rfl, rfl⟩ := hs
+    exact inv_stepTr h hs1
+  | trCommit =>
+    simp only [step, Option.map_eq_some_iff, Prod.mk.injEq] at hs
+    obtain ⟨s1, hs1, rfl, rfl⟩ := hs
+    exact inv_stepTr h hs1
+  | trDiscard =>
+    simp only [step, Option.map_eq_some_iff, Prod.mk.injEq] at hs
+    obtain ⟨s1, hs1, rfl, rfl⟩ := hs
+    exact inv_stepTr h hs1
 
 theorem inv_run {cfg : Cfg} (hg : cfg.Good) {sd sd' : St × Disk} (h : Inv cfg sd.1 sd.2) (as : List Act)
     (hff : ∀ a ∈ as, a.faultFree = true) (hr : run cfg sd as = some sd') : Inv cfg sd'.1 sd'.2 := by
